@@ -1009,13 +1009,12 @@ theorem runProgram_unsupported (env : Env) (blocks : List Block) (secs : List Se
     exact ⟨e, by simp [he, bind, Except.bind]⟩
 
 
-theorem intOf_evalE {env : Env} (hev : ∀ e, eval env.vars e = Spec.eval env.vars e) {e : Expr} {v : Int}
+theorem intOf_evalE {env : Env} (hev : ∀ e v, Spec.eval env.vars e = .ok v → eval env.vars e = .ok v) {e : Expr} {v : Int}
     (h : Spec.intOf env e = some v) : evalE env e = .ok (.int v) := by
   unfold Spec.intOf at h
   unfold evalE
-  rw [hev]
   split at h
-  · next v' hv => simp at h; subst h; rw [hv]; rfl
+  · next v' hv => simp at h; subst h; rw [hev _ _ hv]; rfl
   · simp at h
 
 theorem checkAddr_ok {a : Int} (h : Spec.isAddr a = true) : checkAddr a = .ok () := by
@@ -1024,7 +1023,7 @@ theorem checkAddr_ok {a : Int} (h : Spec.isAddr a = true) : checkAddr a = .ok ()
   omega
 
 set_option maxHeartbeats 400000 in
-theorem elab_simple (env : Env) (kbs : List KeyBlobDef) (hev : ∀ e, eval env.vars e = Spec.eval env.vars e) (c : Cmd) :
+theorem elab_simple (env : Env) (kbs : List KeyBlobDef) (hev : ∀ e v, Spec.eval env.vars e = .ok v → eval env.vars e = .ok v) (c : Cmd) :
     (∀ nsec e, Spec.cmdOf env kbs (.versionCheck nsec e) = some c → elabStmt env kbs (.versionCheck nsec e) = .ok c) ∧
     (∀ tgt arg, Spec.cmdOf env kbs (.jump tgt arg) = some c → elabStmt env kbs (.jump tgt arg) = .ok c) ∧
     (∀ sp tgt arg, Spec.cmdOf env kbs (.jumpSp sp tgt arg) = some c → elabStmt env kbs (.jumpSp sp tgt arg) = .ok c) ∧
@@ -1033,14 +1032,18 @@ theorem elab_simple (env : Env) (kbs : List KeyBlobDef) (hev : ∀ e, eval env.v
   · intro nsec e h
     simp only [Spec.cmdOf, Option.bind_eq_bind, Option.bind_eq_some_iff] at h
     obtain ⟨v, hv, hc⟩ := h
-    simp at hc
-    subst hc
-    simp [elabStmt, stmtDict, intOf_evalE hev hv, bind, Except.bind, pure, Except.pure, cmdOfDict, Dict.get?, DVal.ofVal]
+    split at hc
+    · simp at hc
+      subst hc
+      simp [elabStmt, stmtDict, intOf_evalE hev hv, bind, Except.bind, pure, Except.pure, cmdOfDict, Dict.get?, DVal.ofVal]
+    · simp at hc
   · intro tgt arg h
     simp only [Spec.cmdOf, Option.bind_eq_bind, Option.bind_eq_some_iff] at h
     obtain ⟨a, ha, x, hx, hc⟩ := h
     split at hc
-    · next haddr =>
+    · next hcond =>
+      simp only [Bool.and_eq_true] at hcond
+      have haddr := hcond.1
       simp at hc; subst hc
       cases arg with
       | none =>
@@ -1060,7 +1063,9 @@ theorem elab_simple (env : Env) (kbs : List KeyBlobDef) (hev : ∀ e, eval env.v
     simp only [Spec.cmdOf, Option.bind_eq_bind, Option.bind_eq_some_iff] at h
     obtain ⟨s, hs, a, ha, x, hx, hc⟩ := h
     split at hc
-    · next haddr =>
+    · next hcond =>
+      simp only [Bool.and_eq_true] at hcond
+      have haddr := hcond.1.1
       simp at hc; subst hc
       cases arg with
       | none =>
@@ -1084,7 +1089,7 @@ theorem elab_simple (env : Env) (kbs : List KeyBlobDef) (hev : ∀ e, eval env.v
     decide
 
 /-- memory option: the dictionary entry the parser makes and the id the helper derives from it -/
-theorem memOpt_cases {env : Env} (hev : ∀ e, eval env.vars e = Spec.eval env.vars e) (key : String) {opt : MemOpt} {m : Int}
+theorem memOpt_cases {env : Env} (hev : ∀ e v, Spec.eval env.vars e = .ok v → eval env.vars e = .ok v) (key : String) {opt : MemOpt} {m : Int}
     (h : Spec.memIdOf env opt = some m) :
     (memOptDict env key opt = .ok [] ∧ m = 0) ∨
     (∃ v, memOptDict env key opt = .ok [(key, v)] ∧ (if truthyD v then getMemId env v else .ok 0) = .ok m) := by
@@ -1114,11 +1119,11 @@ theorem memOpt_cases {env : Env} (hev : ∀ e, eval env.vars e = Spec.eval env.v
       · simp at h
 
 
-theorem targetDict_addr {env : Env} (hev : ∀ e, eval env.vars e = Spec.eval env.vars e) {e : Expr} {a : Int}
+theorem targetDict_addr {env : Env} (hev : ∀ e v, Spec.eval env.vars e = .ok v → eval env.vars e = .ok v) {e : Expr} {a : Int}
     (h : Spec.intOf env e = some a) : targetDict env (.addr e) = .ok [("address", .i a)] := by
   simp [targetDict, intOf_evalE hev h, bind, Except.bind, pure, Except.pure, DVal.ofVal]
 
-theorem targetDict_range {env : Env} (hev : ∀ e, eval env.vars e = Spec.eval env.vars e) {e1 e2 : Expr} {a b : Int}
+theorem targetDict_range {env : Env} (hev : ∀ e v, Spec.eval env.vars e = .ok v → eval env.vars e = .ok v) {e1 e2 : Expr} {a b : Int}
     (h1 : Spec.intOf env e1 = some a) (h2 : Spec.intOf env e2 = some b) :
     targetDict env (.range e1 e2) = .ok [("address", .i a), ("length", .i (b - a))] := by
   simp [targetDict, intOf_evalE hev h1, intOf_evalE hev h2, bind, Except.bind, pure, Except.pure, liftPy, BdGrammar.rangeLength]
@@ -1129,7 +1134,7 @@ theorem intOr_zero_left (x : Int) : intOr 0 x = x := by
   | negSucc n => show Int.negSucc (natAndNot n 0) = _; simp [natAndNot]
 
 set_option maxHeartbeats 400000 in
-theorem elab_erase (env : Env) (kbs : List KeyBlobDef) (hev : ∀ e, eval env.vars e = Spec.eval env.vars e) (c : Cmd)
+theorem elab_erase (env : Env) (kbs : List KeyBlobDef) (hev : ∀ e v, Spec.eval env.vars e = .ok v → eval env.vars e = .ok v) (c : Cmd)
     (opt : MemOpt) (t : Target) (h : Spec.cmdOf env kbs (.erase opt t) = some c) : elabStmt env kbs (.erase opt t) = .ok c := by
   cases t with
   | addr e =>
@@ -1162,7 +1167,7 @@ theorem elab_erase (env : Env) (kbs : List KeyBlobDef) (hev : ∀ e, eval env.va
 
 
 set_option maxHeartbeats 400000 in
-theorem elab_eraseAll (env : Env) (kbs : List KeyBlobDef) (hev : ∀ e, eval env.vars e = Spec.eval env.vars e) (c : Cmd)
+theorem elab_eraseAll (env : Env) (kbs : List KeyBlobDef) (hev : ∀ e v, Spec.eval env.vars e = .ok v → eval env.vars e = .ok v) (c : Cmd)
     (opt : MemOpt) (h : Spec.cmdOf env kbs (.eraseAll opt) = some c) : elabStmt env kbs (.eraseAll opt) = .ok c := by
   simp only [Spec.cmdOf, Option.bind_eq_bind, Option.bind_eq_some_iff] at h
   obtain ⟨m, hm, hc⟩ := h
@@ -1174,11 +1179,13 @@ theorem elab_eraseAll (env : Env) (kbs : List KeyBlobDef) (hev : ∀ e, eval env
       valueToInt, checkAddr, optMemId, hv, BdGrammar.eraseAllAddress, BdGrammar.eraseAllFlags]
 
 set_option maxHeartbeats 400000 in
-theorem elab_enable (env : Env) (kbs : List KeyBlobDef) (hev : ∀ e, eval env.vars e = Spec.eval env.vars e) (c : Cmd)
+theorem elab_enable (env : Env) (kbs : List KeyBlobDef) (hev : ∀ e v, Spec.eval env.vars e = .ok v → eval env.vars e = .ok v) (c : Cmd)
     (opt : MemOpt) (e : Expr) (h : Spec.cmdOf env kbs (.enable opt e) = some c) : elabStmt env kbs (.enable opt e) = .ok c := by
   simp only [Spec.cmdOf, Option.bind_eq_bind, Option.bind_eq_some_iff] at h
   obtain ⟨m, hm, a, ha, hc⟩ := h
-  simp at hc; subst hc
+  by_cases haddr : Spec.isAddr a = true
+  case neg => simp [haddr] at hc
+  simp [haddr] at hc; subst hc
   rcases memOpt_cases hev "mem_opt" hm with ⟨hd, rfl⟩ | ⟨v, hd, hv⟩
   · simp [elabStmt, stmtDict, hd, intOf_evalE hev ha, bind, Except.bind, pure, Except.pure, cmdOfDict, Dict.get?, Dict.update,
       valueToInt, optMemId, DVal.ofVal]
@@ -1187,7 +1194,7 @@ theorem elab_enable (env : Env) (kbs : List KeyBlobDef) (hev : ∀ e, eval env.v
 
 
 set_option maxHeartbeats 400000 in
-theorem elab_ksTo (env : Env) (kbs : List KeyBlobDef) (hev : ∀ e, eval env.vars e = Spec.eval env.vars e) (c : Cmd)
+theorem elab_ksTo (env : Env) (kbs : List KeyBlobDef) (hev : ∀ e v, Spec.eval env.vars e = .ok v → eval env.vars e = .ok v) (c : Cmd)
     (opt : MemOpt) (t : Target) (h : Spec.cmdOf env kbs (.keystoreToNv opt t) = some c) :
     elabStmt env kbs (.keystoreToNv opt t) = .ok c := by
   cases opt with
@@ -1212,7 +1219,7 @@ theorem elab_ksTo (env : Env) (kbs : List KeyBlobDef) (hev : ∀ e, eval env.var
       · simp at hc
 
 set_option maxHeartbeats 400000 in
-theorem elab_ksFrom (env : Env) (kbs : List KeyBlobDef) (hev : ∀ e, eval env.vars e = Spec.eval env.vars e) (c : Cmd)
+theorem elab_ksFrom (env : Env) (kbs : List KeyBlobDef) (hev : ∀ e v, Spec.eval env.vars e = .ok v → eval env.vars e = .ok v) (c : Cmd)
     (opt : MemOpt) (t : Target) (h : Spec.cmdOf env kbs (.keystoreFromNv opt t) = some c) :
     elabStmt env kbs (.keystoreFromNv opt t) = .ok c := by
   cases opt with
@@ -1237,10 +1244,10 @@ theorem elab_ksFrom (env : Env) (kbs : List KeyBlobDef) (hev : ∀ e, eval env.v
       · simp at hc
 
 
-theorem crypto_ok {kbs : List KeyBlobDef} {i st en : Int} {key ctr : String} (kind : String) (d : Dict) (addr : Int) (input : String)
-    (hd : d.get? "keyblob_id" = some (.i i)) (haddr : Spec.isAddr addr = true)
-    (h : Spec.keyblobOf kbs i = some (st, en, key, ctr)) :
-    cryptoCmd kind kbs d addr input = .ok (.loadCrypto kind addr st en key ctr input) := by
+theorem crypto_ok {kbs : List KeyBlobDef} {i st en : Int} {key ctr : String} {swap : Bool} (kind : String) (d : Dict) (addr : Int)
+    (input : String) (hd : d.get? "keyblob_id" = some (.i i)) (haddr : Spec.isAddr addr = true)
+    (h : Spec.keyblobOf kbs i = some (st, en, key, ctr, swap)) :
+    cryptoCmd kind kbs d addr input = .ok (.loadCrypto kind addr st en key ctr input false) := by
   unfold Spec.keyblobOf at h
   split at h
   · next k hk =>
@@ -1248,8 +1255,9 @@ theorem crypto_ok {kbs : List KeyBlobDef} {i st en : Int} {key ctr : String} (ki
     · next vs ve vk vc hs he hkey hctr =>
       split at h
       · next hhex =>
-        simp at h
-        obtain ⟨rfl, rfl, rfl, rfl⟩ := h
+        have hst : st = vs ∧ en = ve ∧ key = vk ∧ ctr = vc := by
+          split at h <;> simp at h <;> simp [h]
+        obtain ⟨rfl, rfl, rfl, rfl⟩ := hst
         simp only [Bool.and_eq_true] at hhex
         simp [cryptoCmd, hd, lookupKeyblob, hk, hs, he, hkey, hctr, bind, Except.bind, pure, Except.pure, valueToInt, strOf, hhex.1, hhex.2,
           checkAddr_ok haddr]
@@ -1258,11 +1266,11 @@ theorem crypto_ok {kbs : List KeyBlobDef} {i st en : Int} {key ctr : String} (ki
   · simp at h
 
 set_option maxHeartbeats 400000 in
-theorem elab_keywrap (env : Env) (kbs : List KeyBlobDef) (hev : ∀ e, eval env.vars e = Spec.eval env.vars e) (c : Cmd)
+theorem elab_keywrap (env : Env) (kbs : List KeyBlobDef) (hev : ∀ e v, Spec.eval env.vars e = .ok v → eval env.vars e = .ok v) (c : Cmd)
     (id : Expr) (blob : String) (addr : Expr) (h : Spec.cmdOf env kbs (.keywrap id blob addr) = some c) :
     elabStmt env kbs (.keywrap id blob addr) = .ok c := by
   simp only [Spec.cmdOf, Option.bind_eq_bind, Option.bind_eq_some_iff] at h
-  obtain ⟨i, hi, a, ha, ⟨st, en, key, ctr⟩, hkb, hc⟩ := h
+  obtain ⟨i, hi, a, ha, ⟨st, en, key, ctr, swap⟩, hkb, hc⟩ := h
   split at hc
   · next haddr =>
     simp at hc; subst hc
@@ -1298,14 +1306,17 @@ theorem fileOf_ok {env : Env} {d : LoadData} {bs : List UInt8} (h : Spec.fileOf 
   | pattern e => simp [Spec.fileOf] at h
 
 set_option maxHeartbeats 400000 in
-theorem elab_encrypt (env : Env) (kbs : List KeyBlobDef) (hev : ∀ e, eval env.vars e = Spec.eval env.vars e) (c : Cmd)
-    (id : Expr) (opt : MemOpt) (d : LoadData) (t : Target) (h : Spec.cmdOf env kbs (.encrypt id opt d t) = some c) :
+theorem elab_encrypt (env : Env) (kbs : List KeyBlobDef) (hev : ∀ e v, Spec.eval env.vars e = .ok v → eval env.vars e = .ok v) (c : Cmd)
+    (id : Expr) (opt : MemOpt) (d : LoadData) (t : Target) (hsw : Spec.isSwappedEncrypt env kbs (.encrypt id opt d t) = false)
+    (h : Spec.cmdOf env kbs (.encrypt id opt d t) = some c) :
     elabStmt env kbs (.encrypt id opt d t) = .ok c := by
   cases t with
   | range e1 e2 => simp [Spec.cmdOf] at h
   | addr ea =>
     simp only [Spec.cmdOf, Option.bind_eq_bind, Option.bind_eq_some_iff] at h
-    obtain ⟨i, hi, m, hm, a, ha, bs, hbs, ⟨st, en, key, ctr⟩, hkb, hc⟩ := h
+    obtain ⟨i, hi, m, hm, a, ha, bs, hbs, ⟨st, en, key, ctr, swap⟩, hkb, hc⟩ := h
+    have hswap : swap = false := by simpa [Spec.isSwappedEncrypt, hi, hkb] using hsw
+    subst hswap
     by_cases haddr : Spec.isAddr a = true
     case neg => simp [haddr] at hc
     simp [haddr] at hc; subst hc
@@ -1324,7 +1335,7 @@ theorem elab_encrypt (env : Env) (kbs : List KeyBlobDef) (hev : ∀ e, eval env.
 
 
 set_option maxHeartbeats 400000 in
-theorem elab_load_file (env : Env) (kbs : List KeyBlobDef) (hev : ∀ e, eval env.vars e = Spec.eval env.vars e) (c : Cmd)
+theorem elab_load_file (env : Env) (kbs : List KeyBlobDef) (hev : ∀ e v, Spec.eval env.vars e = .ok v → eval env.vars e = .ok v) (c : Cmd)
     (opt : MemOpt) (d : LoadData) (t : Target) (hd1 : ∀ e, d ≠ .pattern e) (hd2 : ∀ x, d ≠ .blob x)
     (h : Spec.cmdOf env kbs (.load opt d t) = some c) : elabStmt env kbs (.load opt d t) = .ok c := by
   simp only [Spec.cmdOf, Spec.loadCmdOf, Option.bind_eq_bind, Option.bind_eq_some_iff] at h
@@ -1420,7 +1431,7 @@ theorem bytesCnt_le4 (v : Nat) (h : v < 2 ^ 32) : bytesCnt v ≤ 4 := by
 
 
 set_option maxHeartbeats 400000 in
-theorem elab_load_pattern_prog (env : Env) (kbs : List KeyBlobDef) (hev : ∀ e, eval env.vars e = Spec.eval env.vars e)
+theorem elab_load_pattern_prog (env : Env) (kbs : List KeyBlobDef) (hev : ∀ e v, Spec.eval env.vars e = .ok v → eval env.vars e = .ok v)
     (opt : MemOpt) (hopt : opt ≠ .none) (e ea : Expr) (m p a : Int)
     (hm : Spec.memIdOf env opt = some m) (hp : Spec.intOf env e = some p) (ha : Spec.intOf env ea = some a)
     (hc : (m == 4 && decide (0 < p) && decide (p ≤ 0xFFFFFFFF) && Spec.isAddr a) = true) :
@@ -1537,7 +1548,7 @@ theorem fillCmd_some (addr p l : Int) (w : List UInt8) (hw : Spec.fillWord p = s
 
 
 set_option maxHeartbeats 400000 in
-theorem elab_load_pattern (env : Env) (kbs : List KeyBlobDef) (hev : ∀ e, eval env.vars e = Spec.eval env.vars e) (c : Cmd)
+theorem elab_load_pattern (env : Env) (kbs : List KeyBlobDef) (hev : ∀ e v, Spec.eval env.vars e = .ok v → eval env.vars e = .ok v) (c : Cmd)
     (opt : MemOpt) (e : Expr) (t : Target)
     (h : Spec.cmdOf env kbs (.load opt (.pattern e) t) = some c) : elabStmt env kbs (.load opt (.pattern e) t) = .ok c := by
   simp only [Spec.cmdOf, Spec.loadCmdOf, Option.bind_eq_bind, Option.bind_eq_some_iff] at h
@@ -1593,13 +1604,245 @@ theorem elab_load_pattern (env : Env) (kbs : List KeyBlobDef) (hev : ∀ e, eval
         exact elab_load_pattern_prog env kbs hev _ (by simp) e ea m p a hm hp ha hcond
       · simp at hc
 
-/-- every supported statement other than a blob load becomes exactly the command the Spec states -/
-theorem elab_one_cmd_noblob (env : Env) (kbs : List KeyBlobDef) (hev : ∀ e, eval env.vars e = Spec.eval env.vars e)
-    (s : Stmt) (c : Cmd) (h1 : Spec.isBlobLoad s = false) (h : Spec.cmdOf env kbs s = some c) : elabStmt env kbs s = .ok c := by
+/-! ### program-fuse load of a 4- or 8-byte blob (hexadecimal string arithmetic) -/
+
+theorem char_le_iff (a b : Char) : a ≤ b ↔ a.toNat ≤ b.toNat := by
+  show a.val ≤ b.val ↔ _
+  rw [UInt32.le_iff_toNat_le]; rfl
+
+theorem isDigit_iff (c : Char) : c.isDigit = true ↔ 48 ≤ c.toNat ∧ c.toNat ≤ 57 := by
+  unfold Char.isDigit
+  simp only [Bool.and_eq_true, decide_eq_true_eq, ge_iff_le, UInt32.le_iff_toNat_le]
+  rfl
+
+theorem hexDigitVal_lt (c : Char) (h : isHexDigit c = true) : hexDigitVal c < 16 := by
+  unfold isHexDigit at h
+  unfold hexDigitVal
+  simp only [Bool.or_eq_true, Bool.and_eq_true, decide_eq_true_eq, isDigit_iff, char_le_iff] at h ⊢
+  have ha : ('a' : Char).toNat = 97 := rfl
+  have hf : ('f' : Char).toNat = 102 := rfl
+  have hA : ('A' : Char).toNat = 65 := rfl
+  have hF : ('F' : Char).toNat = 70 := rfl
+  rw [ha, hf, hA, hF] at h
+  rw [ha, hf]
+  split
+  · omega
+  · split <;> omega
+
+def beVal (bs : List UInt8) : Nat := bs.foldl (fun acc b => acc * 256 + b.toNat) 0
+
+theorem hexVal_foldl (cs : List Char) : ∀ (bs : List UInt8) (acc : Nat), Spec.hexBytes cs = some bs →
+    cs.foldl (fun acc c => acc * 16 + hexDigitVal c) acc = bs.foldl (fun acc b => acc * 256 + b.toNat) acc := by
+  induction cs using Spec.hexBytes.induct with
+  | case1 => intro bs acc h; simp [Spec.hexBytes] at h; subst h; rfl
+  | case2 a b rest hab ih =>
+    intro bs acc h
+    simp only [Spec.hexBytes, hab, if_true, Option.map_eq_some_iff] at h
+    obtain ⟨t, ht, rfl⟩ := h
+    simp only [Bool.and_eq_true] at hab
+    have ha := hexDigitVal_lt a hab.1
+    have hb := hexDigitVal_lt b hab.2
+    simp only [List.foldl_cons]
+    rw [ih t _ ht]
+    congr 1
+    have : (UInt8.ofNat (hexDigitVal a * 16 + hexDigitVal b)).toNat = hexDigitVal a * 16 + hexDigitVal b := by
+      simp [UInt8.toNat_ofNat]; omega
+    rw [this]; omega
+  | case3 a b rest hab => intro bs acc h; simp [Spec.hexBytes, hab] at h
+  | case4 cs h1 h2 =>
+    intro bs acc h
+    cases cs with
+    | nil => exact absurd rfl h1
+    | cons a r =>
+      cases r with
+      | nil => simp [Spec.hexBytes] at h
+      | cons b r' => exact absurd rfl (h2 a b r')
+
+theorem hexNat_eq (h : String) (bs : List UInt8) (hb : Spec.hexBytes h.toList = some bs) : hexNat h = beVal bs := by
+  unfold hexNat hexVal beVal
+  exact hexVal_foldl _ _ _ hb
+
+
+theorem natBytesBE4 (b0 b1 b2 b3 : UInt8) :
+    natBytesBE 4 (((b0.toNat * 256 + b1.toNat) * 256 + b2.toNat) * 256 + b3.toNat) = [b0, b1, b2, b3] := by
+  have h0 := b0.toNat_lt; have h1 := b1.toNat_lt; have h2 := b2.toNat_lt; have h3 := b3.toNat_lt
+  simp only [natBytesBE, List.nil_append, List.cons_append, List.cons.injEq, and_true]
+  refine ⟨?_, ?_, ?_, ?_⟩
+  · conv => rhs; rw [← UInt8.ofNat_toNat (x := b0)]
+    congr 1; omega
+  · conv => rhs; rw [← UInt8.ofNat_toNat (x := b1)]
+    congr 1; omega
+  · conv => rhs; rw [← UInt8.ofNat_toNat (x := b2)]
+    congr 1; omega
+  · conv => rhs; rw [← UInt8.ofNat_toNat (x := b3)]
+    congr 1; omega
+
+theorem swap32_be4 (b0 b1 b2 b3 : UInt8) :
+    swap32 (((b0.toNat * 256 + b1.toNat) * 256 + b2.toNat) * 256 + b3.toNat)
+      = ((b3.toNat * 256 + b2.toNat) * 256 + b1.toNat) * 256 + b0.toNat := by
+  unfold swap32
+  rw [natBytesBE4]
+  simp
+
+theorem byteLen_ge : ∀ k fuel v, 256 ^ k ≤ v → k < fuel → k + 1 ≤ byteLen fuel v := by
+  intro k
+  induction k with
+  | zero =>
+    intro fuel v h1 h3
+    cases fuel with
+    | zero => omega
+    | succ f =>
+      simp only [byteLen]
+      have hv : v ≠ 0 := by simp at h1; omega
+      simp [hv]
+  | succ k ih =>
+    intro fuel v h1 h3
+    cases fuel with
+    | zero => omega
+    | succ f =>
+      simp only [byteLen]
+      have hpos : 0 < 256 ^ (k + 1) := Nat.pow_pos (by decide)
+      have hv : v ≠ 0 := by omega
+      have h1' : 256 ^ k ≤ v / 256 := by
+        rw [Nat.le_div_iff_mul_le (by decide)]; rw [Nat.pow_succ] at h1; omega
+      have := ih f _ h1' (by omega)
+      simp [hv]; omega
+
+theorem bytesCnt_8 (v : Nat) (hlo : 2 ^ 32 ≤ v) (hhi : v < 2 ^ 64) : 4 < bytesCnt v ∧ bytesCnt v ≤ 8 := by
+  unfold bytesCnt
+  have e4 : (256 : Nat) ^ 4 = 2 ^ 32 := by decide
+  have e8 : (256 : Nat) ^ 8 = 2 ^ 64 := by decide
+  have h1 : 5 ≤ byteLen (v + 1) v := byteLen_ge 4 _ _ (by omega) (by omega)
+  have h2 : byteLen (v + 1) v ≤ 8 := byteLen_le 8 _ _ (by omega)
+  have hv : v ≠ 0 := by omega
+  simp only [hv, if_false]
+  split <;> omega
+
+
+theorem hexBytes_nonempty {h : String} {bs : List UInt8} (hb : Spec.hexBytes h.toList = some bs) (hne : bs ≠ []) : (h != "") = true := by
+  by_cases he : h = ""
+  · subst he; simp [Spec.hexBytes] at hb; exact (hne hb).elim
+  · simpa using he
+
+/-- `SB21Helper._prog` on a 4- or 8-byte blob (not starting with a zero word when 8 bytes long) -/
+theorem progCmd_blob {env : Env} (d : Dict) (h : String) (bs : List UInt8) (a : Int) (v : DVal)
+    (hb : Spec.hexBytes h.toList = some bs) (haddr : Spec.isAddr a = true)
+    (hda : d.get? "address" = some (.i a)) (hdo : d.get? "load_opt" = some v) (hdv : d.get? "values" = some (.s h))
+    (hv : getMemId env v = .ok 4) :
+    (bs.length = 4 → progCmd env d = .ok (.prog a 4 (Spec.leWord bs) 0)) ∧
+    (bs.length = 8 → Spec.leWord (bs.take 4) ≠ 0 →
+      progCmd env d = .ok (.prog a 4 (Spec.leWord (bs.take 4)) (Spec.leWord (bs.drop 4)))) := by
+  have hval := hexNat_eq h bs hb
+  constructor
+  · intro hl
+    match bs, hl with
+    | [b0, b1, b2, b3], _ =>
+      have h0 := b0.toNat_lt; have h1 := b1.toNat_lt; have h2 := b2.toNat_lt; have h3 := b3.toNat_lt
+      have hne := hexBytes_nonempty hb (by simp)
+      have hv4 : hexNat h = ((b0.toNat * 256 + b1.toNat) * 256 + b2.toNat) * 256 + b3.toNat := by
+        rw [hval]; simp [beVal]
+      have hbc : bytesCnt (hexNat h) ≤ 4 := bytesCnt_le4 _ (by rw [hv4]; omega)
+      have hsw := swap32_be4 b0 b1 b2 b3
+      have hz : swap32 0 = 0 := by decide
+      have hle : Spec.leWord [b0, b1, b2, b3] = ((((b3.toNat * 256 + b2.toNat) * 256 + b1.toNat) * 256 + b0.toNat : Nat) : Int) := by
+        simp [Spec.leWord]
+      unfold progCmd
+      simp only [hda, hdo, hdv, Option.getD_some, valueToInt, hv, bind, Except.bind, Option.map_some, truthyD, hne]
+      rw [if_pos trivial, if_pos hbc, hz, hv4, hsw, hle]
+      have hw : ¬ ((decide ((((((b3.toNat * 256 + b2.toNat) * 256 + b1.toNat) * 256 + b0.toNat : Nat) : Int)) < 0) ||
+          decide ((((((b3.toNat * 256 + b2.toNat) * 256 + b1.toNat) * 256 + b0.toNat : Nat) : Int)) > 4294967295)) = true) := by
+        simp; omega
+      simp [checkAddr_ok haddr, hw, pure, Except.pure]
+      omega
+  · intro hl hnz
+    match bs, hl with
+    | [b0, b1, b2, b3, b4, b5, b6, b7], _ =>
+      have h0 := b0.toNat_lt; have h1 := b1.toNat_lt; have h2 := b2.toNat_lt; have h3 := b3.toNat_lt
+      have h4 := b4.toNat_lt; have h5 := b5.toNat_lt; have h6 := b6.toNat_lt; have h7 := b7.toNat_lt
+      have hne := hexBytes_nonempty hb (by simp)
+      have hv8 : hexNat h = (((b0.toNat * 256 + b1.toNat) * 256 + b2.toNat) * 256 + b3.toNat) * 4294967296 +
+          ((((b4.toNat * 256 + b5.toNat) * 256 + b6.toNat) * 256 + b7.toNat)) := by
+        rw [hval]; simp [beVal]; omega
+      have hle1 : Spec.leWord ([b0, b1, b2, b3, b4, b5, b6, b7].take 4) =
+          ((((b3.toNat * 256 + b2.toNat) * 256 + b1.toNat) * 256 + b0.toNat : Nat) : Int) := by simp [Spec.leWord]
+      have hle2 : Spec.leWord ([b0, b1, b2, b3, b4, b5, b6, b7].drop 4) =
+          ((((b7.toNat * 256 + b6.toNat) * 256 + b5.toNat) * 256 + b4.toNat : Nat) : Int) := by simp [Spec.leWord]
+      rw [hle1] at hnz
+      have hhi : (((b0.toNat * 256 + b1.toNat) * 256 + b2.toNat) * 256 + b3.toNat) ≠ 0 := by
+        intro hz; apply hnz; simp; omega
+      have hbc := bytesCnt_8 (hexNat h) (by rw [hv8]; omega) (by rw [hv8]; omega)
+      have hd : hexNat h / 2 ^ 32 = ((b0.toNat * 256 + b1.toNat) * 256 + b2.toNat) * 256 + b3.toNat := by rw [hv8]; omega
+      have hm : hexNat h % 2 ^ 32 = ((b4.toNat * 256 + b5.toNat) * 256 + b6.toNat) * 256 + b7.toNat := by rw [hv8]; omega
+      unfold progCmd
+      simp only [hda, hdo, hdv, Option.getD_some, valueToInt, hv, bind, Except.bind, Option.map_some, truthyD, hne]
+      rw [if_pos trivial, if_neg (by omega), if_pos hbc.2, hd, hm, swap32_be4, swap32_be4, hle1, hle2]
+      clear hle1 hle2 hnz hbc hd hm hv8 hval hb
+      simp [checkAddr_ok haddr, pure, Except.pure]
+      rw [if_neg (by omega), if_neg (by omega)]
+
+
+set_option maxHeartbeats 400000 in
+theorem elab_load_blob_prog (env : Env) (kbs : List KeyBlobDef) (hev : ∀ e v, Spec.eval env.vars e = .ok v → eval env.vars e = .ok v)
+    (c : Cmd) (opt : MemOpt) (h : String) (t : Target)
+    (h1 : Spec.isPlainBlobLoad env (.load opt (.blob h) t) = false)
+    (h2 : Spec.isProgBlobLeadingZeros env (.load opt (.blob h) t) = false)
+    (hc : Spec.cmdOf env kbs (.load opt (.blob h) t) = some c) : elabStmt env kbs (.load opt (.blob h) t) = .ok c := by
+  simp only [Spec.cmdOf, Spec.loadCmdOf, Option.bind_eq_bind, Option.bind_eq_some_iff] at hc
+  obtain ⟨m, hm, hc⟩ := hc
+  have hm4 : m = 4 := by
+    simp [Spec.isPlainBlobLoad, hm] at h1; exact h1
+  subst hm4
+  cases t with
+  | range e1 e2 => simp at hc
+  | addr ea =>
+    simp only [Option.bind_eq_bind, Option.bind_eq_some_iff] at hc
+    obtain ⟨a, ha, bs, hbs, hc⟩ := hc
+    have hz : ¬ (bs.length = 8 ∧ Spec.leWord (bs.take 4) = 0) := by
+      simp [Spec.isProgBlobLeadingZeros, hm, hbs] at h2
+      intro ⟨h8, h0⟩; exact h2 h8 h0
+    split at hc
+    · simp at hc
+    · next hcond =>
+      simp only [Bool.or_eq_true, Bool.not_eq_true', not_or, Bool.not_eq_false] at hcond
+      obtain ⟨haddr, hne⟩ := hcond
+      have haddr' : Spec.isAddr a = true := by simpa using haddr
+      rcases memOpt_cases hev "load_opt" hm with ⟨hd, h0⟩ | ⟨v, hd, hv⟩
+      · omega
+      · have hvt : truthyD v = true := by
+          by_cases ht : truthyD v = true
+          · exact ht
+          · simp [ht] at hv
+        simp only [hvt, if_true] at hv
+        have hbne : bs ≠ [] := by intro e; subst e; simp at hne
+        have hhne := hexBytes_nonempty hbs hbne
+        have key := progCmd_blob (env := env) [("load_opt", v), ("values", .s h), ("address", .i a)] h bs a v hbs haddr'
+          (by simp [Dict.get?]) (by simp [Dict.get?]) (by simp [Dict.get?]) hv
+        have hstep : elabStmt env kbs (.load opt (.blob h) (.addr ea)) =
+            progCmd env [("load_opt", v), ("values", .s h), ("address", .i a)] := by
+          simp [elabStmt, stmtDict, loadStmtDict, hd, loadDataDict, targetDict_addr hev ha, bind, Except.bind, pure, Except.pure,
+            cmdOfDict, loadCmd, Dict.get?, Dict.update, valueToInt, optMemId, hv, hvt, hhne]
+        rw [hstep]
+        simp only [beq_self_eq_true, if_true] at hc
+        split at hc
+        · next h4 => simp at hc; subst hc; exact key.1 (by simpa using h4)
+        · split at hc
+          · next h8 =>
+            simp at hc; subst hc
+            have h8' : bs.length = 8 := by simpa using h8
+            exact key.2 h8' (fun h0 => hz ⟨h8', h0⟩)
+          · simp at hc
+
+
+/-- every supported statement becomes exactly the command the Spec states — except the forms of the four open findings:
+    a plain blob load, an 8-byte fuse blob starting with a zero word, `call`/`reset`, `encrypt` with a byte-swapping key blob -/
+theorem elab_one_cmd_except (env : Env) (kbs : List KeyBlobDef) (hev : ∀ e v, Spec.eval env.vars e = .ok v → eval env.vars e = .ok v)
+    (s : Stmt) (c : Cmd) (h1 : Spec.isPlainBlobLoad env s = false) (h1b : Spec.isProgBlobLeadingZeros env s = false)
+    (h2 : Spec.isCallOrReset s = false) (h3 : Spec.isSwappedEncrypt env kbs s = false)
+    (h : Spec.cmdOf env kbs s = some c) : elabStmt env kbs s = .ok c := by
   cases s with
   | load opt d t =>
     cases d with
-    | blob x => simp [Spec.isBlobLoad] at h1
+    | blob x => exact elab_load_blob_prog env kbs hev c opt x t h1 h1b h
     | pattern e => exact elab_load_pattern env kbs hev c opt e t h
     | file p => exact elab_load_file env kbs hev c opt _ t (fun _ h => by cases h) (fun _ h => by cases h) h
     | source n => exact elab_load_file env kbs hev c opt _ t (fun _ h => by cases h) (fun _ h => by cases h) h
@@ -1607,16 +1850,26 @@ theorem elab_one_cmd_noblob (env : Env) (kbs : List KeyBlobDef) (hev : ∀ e, ev
   | eraseAll opt => exact elab_eraseAll env kbs hev c opt h
   | eraseUnsecureAll => exact (elab_simple env kbs hev c).2.2.2 h
   | enable opt e => exact elab_enable env kbs hev c opt e h
-  | call tgt a => simp [Spec.cmdOf] at h
+  | call tgt a => simp [Spec.isCallOrReset] at h2
   | jump tgt a => exact (elab_simple env kbs hev c).2.1 tgt a h
   | jumpSp sp tgt a => exact (elab_simple env kbs hev c).2.2.1 sp tgt a h
-  | reset => simp [Spec.cmdOf] at h
+  | reset => simp [Spec.isCallOrReset] at h2
   | versionCheck nsec e => exact (elab_simple env kbs hev c).1 nsec e h
   | keystoreToNv opt t => exact elab_ksTo env kbs hev c opt t h
   | keystoreFromNv opt t => exact elab_ksFrom env kbs hev c opt t h
   | keywrap id blob addr => exact elab_keywrap env kbs hev c id blob addr h
-  | encrypt id opt d t => exact elab_encrypt env kbs hev c id opt d t h
+  | encrypt id opt d t => exact elab_encrypt env kbs hev c id opt d t h3 h
   | unsupported k => simp [Spec.cmdOf] at h
 
+theorem mapM_some_length {α β : Type} (f : α → Option β) : ∀ (l : List α) (r : List β), l.mapM f = some r → r.length = l.length := by
+  intro l
+  induction l with
+  | nil => intro r h; simp at h; subst h; rfl
+  | cons a t ih =>
+    intro r h
+    simp only [List.mapM_cons, Option.bind_eq_bind, Option.bind_eq_some_iff] at h
+    obtain ⟨b, _, t', ht, hr⟩ := h
+    simp at hr; subst hr
+    simp [ih t' ht]
 
 end SpsdkVerif.Bd
